@@ -316,3 +316,18 @@ def san_violations(san, known_sigs):
             sig = "S13"
         out.append((sig, kind, fn))
     return out
+
+
+def play_requests_first(sc):
+    """True when the play/pump line of the script offers every request item before the first response item"""
+    for l in sc:
+        t = l.split(" ")
+        if len(t) >= 3 and t[1] in ("play", "pump"):
+            seen_res = False
+            for it in t[2].split(","):
+                if it.startswith("<") or it.startswith("g<"):
+                    seen_res = True
+                elif seen_res and (it.startswith(">") or it.startswith("g>")):
+                    return False
+            return True
+    return False
